@@ -115,8 +115,10 @@ def fields(line):
 def run(ctx):
     ctx.trusted += [
         "BPF helper and map semantics as implemented by harness/c/bpf_shim.c (hash/array maps, BPF_ANY, -E2BIG when full) and "
-        "harness/c/c03_driver.c (bpf_skb_load_bytes fails iff offset+len > skb->len; bpf_skb_pull_data / socket lookups / socket "
-        "cookie are oracles given per frame; bpf_redirect* recorded): the kernel's real sk_lookup, redirect_peer, verifier, per-CPU "
+        "harness/c/c03_driver.c (bpf_skb_load_bytes fails iff offset+len > skb->len; bpf_skb_pull_data and the socket "
+        "cookie are oracles given per frame; bpf_sk_lookup_{tcp,udp} search a one-entry socket table by protocol, the tuple BYTES the "
+        "program built, netns and flags — so the lookup arguments are compared, the kernel's socket hash is not; bpf_redirect* recorded): "
+        "the kernel's real sk_lookup, redirect_peer, verifier, per-CPU "
         "scratch races and map behaviour under concurrency are not modelled",
         "route() is a parameter `rt` of the per-frame/run theorems; Compose.lean instantiates it with rtOf = C02's routeK on the installed "
         "routing_map / domain_routing_map byte images — the same definition c03drv executes, so this tie compares the real route() (called "
@@ -405,7 +407,7 @@ def run(ctx):
     ctx.cov["janitor_rounds"] = {"rounds": n_jan, "entries_deleted": n_jan_deleted}
     ctx.assumptions = [
         "frames, rule programs, connectivity states, clocks and interleavings are generated (seeded): what was not generated was not compared",
-        "the parse-path choice (linear length, bpf_skb_pull_data result), socket cookie and socket-lookup result are inputs of a frame (oracles)",
+        "the parse-path choice (linear length, bpf_skb_pull_data result), socket cookie and the one-entry socket table are inputs of a frame (oracles)",
         "little-endian host/target (amd64)",
     ]
     return ctx.finish(
